@@ -35,7 +35,10 @@ def gApply (g : GSt) (i : Nat) (r : HR) (cr : List (List Entry)) : GSt :=
   { s := (applyHR g.s i r).1,
     voted := voteDiff r.node i ++ g.voted,
     leaders := leadDiff (g.s.nodes i) r.node i ++ g.leaders,
-    created := cr ++ g.created }
+    created := cr ++ g.created,
+    seen := (i, r.node.term, r.node.log) :: g.seen,
+    llogs := llogDiff (g.s.nodes i) r.node i ++ g.llogs,
+    cands := candDiff (g.s.nodes i) r.node i ++ g.cands }
 
 theorem gstep_handler {v : Variant} {g : GSt} {a : Act} {i : Nat} {r : HR}
     (ht : actTarget g.s a = some i) (hs : step v g.s a = applyHR g.s i r) :
@@ -54,6 +57,11 @@ theorem gstep_idle {v : Variant} {g : GSt} {a : Act} (ht : actTarget g.s a = non
 @[simp] theorem gApply_leaders (g : GSt) (i : Nat) (r : HR) (cr) :
     (gApply g i r cr).leaders = leadDiff (g.s.nodes i) r.node i ++ g.leaders := rfl
 @[simp] theorem gApply_created (g : GSt) (i : Nat) (r : HR) (cr) : (gApply g i r cr).created = cr ++ g.created := rfl
+@[simp] theorem gApply_seen (g : GSt) (i : Nat) (r : HR) (cr) : (gApply g i r cr).seen = (i, r.node.term, r.node.log) :: g.seen := rfl
+@[simp] theorem gApply_llogs (g : GSt) (i : Nat) (r : HR) (cr) :
+    (gApply g i r cr).llogs = llogDiff (g.s.nodes i) r.node i ++ g.llogs := rfl
+@[simp] theorem gApply_cands (g : GSt) (i : Nat) (r : HR) (cr) :
+    (gApply g i r cr).cands = candDiff (g.s.nodes i) r.node i ++ g.cands := rfl
 
 theorem gApply_msgs {g : GSt} {i : Nat} {r : HR} {cr} {e : Env} (h : e ∈ (gApply g i r cr).s.msgs) :
     e ∈ g.s.msgs ∨ (e.src = i ∧ (e.dst, e.body) ∈ r.sends) := by
